@@ -60,6 +60,8 @@ class Leaf:
     self.trace = np.zeros(self.shape)        # momentum
     self.near_cutoff = False
     self.zero_tail_amp = 0.0
+    self.tail_switch = False
+    self.tail_switch_seen = False
     if self.masked:
       return
     if sk:
@@ -178,10 +180,22 @@ class Leaf:
           amp = ((eps if eps > 0 else 1e-14 * lam) / lam) ** alpha
           self.zero_tail_amp = max(self.zero_tail_amp, amp)
     y = x
+    self.tail_switch = False
     for ax in range(x.ndim):
       v = self.V[ax]
       proj = np.tensordot(v.T, y, axes=[[1], [ax]])          # k x ...
       low = np.moveaxis(np.tensordot(v, proj, axes=[[1], [0]]), 0, ax)
+      # `inv_tail = where(tail > 0, (tail+eps)^alpha, 0)` is discontinuous at
+      # tail = 0: with an exactly lossless history and a gradient that has a
+      # real component outside the sketch (off-schedule steps) exact
+      # arithmetic drops that component while any rounding residue in the
+      # tail multiplies it by eps^alpha.  Such a leaf is undecidable.
+      lam_ax = (self.l[ax].max() if self.l[ax].size else 0.0) + self.tail[ax]
+      if self.tail[ax] <= 1e-12 * max(lam_ax, 1e-300) and \
+          self.k[ax] < self.padded[ax] and \
+          np.linalg.norm(y - low) > 1e-4 * max(np.linalg.norm(y), 1e-300):
+        self.tail_switch = True
+        self.tail_switch_seen = True   # sticky: momentum carries it on
       scaled = np.moveaxis(np.tensordot(v * self.inv_l[ax], proj,
                                         axes=[[1], [0]]), 0, ax)
       y = scaled + self.inv_tail[ax] * (y - low)
